@@ -175,7 +175,7 @@ void Exec::tb_after_call(Inst *S, const Op &op, int r, double t0) {
         cls.insert("tb-refused"); S->tb_refused++; last_eagain_step = step;
         // recovery: a module that stayed RUNNING in a looping context and whose refill timer had time to fire and be dispatched must be able to act again
         double period = 1.0 / (double)S->tb_rate;
-        if (S->state == M_MOD_RUNNING && ctx.looping && S->tb_dispatches_since_call >= 1 && (t0 - S->tb_last_call_at) >= 3 * period + 0.05 && S->tb_running_since <= S->tb_last_call_at)
+        if (!S->tb_no_recovery && S->state == M_MOD_RUNNING && ctx.looping && S->tb_dispatches_since_call >= 1 && (t0 - S->tb_last_call_at) >= 3 * period + 0.05 && S->tb_running_since <= S->tb_last_call_at)
             fail("C18.3", "token-consuming call of " + iname(S) + " refused with EAGAIN although " + std::to_string((t0 - S->tb_last_call_at) * 1000) + "ms (>= 3 refill periods + 50ms) and " + std::to_string(S->tb_dispatches_since_call) + " complete dispatch(es) began after a refill was due since its previous call (rate " + std::to_string(S->tb_rate) + "/s, burst " + std::to_string(S->tb_burst) + ")");
         S->tb_last_call_at = t1; S->tb_dispatches_since_call = 0;
         return;
@@ -366,11 +366,22 @@ void Exec::do_op3(const Op &op, bool top, Inst *S, Inst *T, bool deny) {
         if (skip_if_deny()) break;
         long rate = op.a, burst = std::max(1L, op.b);
         bool legal = mod_ok(this, S);
+        // b = 0 on a module that already has a bucket: a burst of 0 is asked for.  The statement gives "b + r*t" also for b = 0 (nothing is ever allowed at once); whether
+        // the request is accepted is the library's choice.  Accepted: the new bound holds.  Refused: a refused call has no effect, so the old bound goes on holding.
+        const bool zero_burst = op.b == 0 && rate > 0 && S->tb_on && legal;
+        if (zero_burst) burst = 0;
         int r = m_mod_set_tokenbucket(handle(S), (uint32_t)rate, (uint64_t)burst);
         if (!legal) { RET_ILLEGAL("C01.2", "m_mod_set_tokenbucket", r); break; }
+        if (zero_burst) {
+            cls.insert(r == 0 ? "tb-zero-burst-accepted" : "tb-zero-burst-refused");
+            trace("  set_tokenbucket with burst 0 returned " + std::to_string(r));
+            S->tb_no_recovery = true;
+            if (r == 0) { S->tb_rate = rate; S->tb_burst = 0; S->tb_calls.clear(); S->tb_refused = 0; S->tb_last_call_at = now(); }
+            break;
+        }
         if (r != 0) { fail("C18.4", "m_mod_set_tokenbucket(" + std::to_string(rate) + ", " + std::to_string(burst) + ") returned " + std::to_string(r) + (S->tb_on ? " while re-configuring a throttled module" : "")); break; }
         if (S->tb_on) cls.insert("tb-reconfigured");
-        S->tb_on = rate > 0; S->tb_rate = rate; S->tb_burst = burst; S->tb_calls.clear(); S->tb_refused = 0;
+        S->tb_on = rate > 0; S->tb_rate = rate; S->tb_burst = burst; S->tb_calls.clear(); S->tb_refused = 0; S->tb_no_recovery = false;
         S->tb_last_call_at = now(); S->tb_dispatches_since_call = 0; S->tb_running_since = now();
         cls.insert(rate > 0 ? "tb-set" : "tb-cleared");
         break; }
